@@ -83,8 +83,9 @@ def block(k, shape):
     return dict(txs=txs, ic=ic, tag=(k if k % 3 == 0 else 0), w=k)
 
 
-def mk_case(h, units, shape=0, post=2):
-    return dict(blocks=[block(k, shape) for k in range(1, h + post + 1)], n=h - 1, units=units)
+def mk_case(h, units, shape=0, post=2, ldb="normal"):
+    """ldb: leveldb_type of both stores: normal (ordered batches) or multi (all Puts, then all Deletes)"""
+    return dict(ldb=ldb, blocks=[block(k, shape) for k in range(1, h + post + 1)], n=h - 1, units=units)
 
 
 # ----------------------------------------------------------------------------- Gallina
@@ -162,7 +163,7 @@ def height_class(h):
     return "genesis" if h == 1 else ("pruning" if h >= 12 else "ordinary")
 
 
-FAIL = {1: "restart fails", 2: "restarted ledger is inconsistent in itself (head unreadable / roots / version)",
+FAIL = {1: "start-up fails (first or second start-up, ledger.New or the view ledger)", 2: "restarted ledger is inconsistent in itself (head unreadable / roots / version)",
         3: "restarted ledger is neither the uncrashed ledger at n nor at n+1", 4: "continuing execution dies (AppendBlock out-order)",
         5: "chain after continuing differs from the uncrashed node", 6: "the uncrashed reference itself is inconsistent"}
 
@@ -188,7 +189,7 @@ def shrink(ctx, exe, case, bad):
 def decide(ctx, exe, known, case, out, v):
     vp, vm, vg = v
     u, h = case["units"], case["n"] + 1
-    where = "height %d (%s) units %s" % (h, height_class(h), units_str(u))
+    where = "height %d (%s) units %s leveldb_type %s" % (h, height_class(h), units_str(u), case.get("ldb", "normal"))
     if vp[0] == 3 or vm[0] == 3:
         ctx.broken("domain:judge_crash", "case outside the model's domain: " + where)
         return "domain"
@@ -260,6 +261,13 @@ def run_inner(ctx):
                 for u in all_ideals(h):
                     cases.append(mk_case(h, u, shape=sh))
                     nideals += 1
+        # the store-kind dimension: the same sweep on multi-layer leveldb stores (quick: two heights)
+        nmulti = 0
+        for h in ([2, 12] if ctx.quick else heights):
+            for sh in ([0] if ctx.quick else shapes):
+                for u in all_ideals(h):
+                    cases.append(mk_case(h, u, shape=sh, ldb="multi"))
+                    nmulti += 1
         extra = 0
         if not ctx.quick:
             # beyond the order-ideals: arbitrary subsets of the blockfile tables (the model does not
@@ -271,9 +279,10 @@ def run_inner(ctx):
                         extra += 1
             for _ in range(300):
                 h = r.choice([1, 2, 3, 4, 7, 11, 12, 13, 15, 22])
-                cases.append(mk_case(h, r.choice(all_ideals(h)), shape=r.randrange(3), post=r.randrange(0, 4)))
+                cases.append(mk_case(h, r.choice(all_ideals(h)), shape=r.randrange(3), post=r.randrange(0, 4),
+                                     ldb=r.choice(["normal", "multi"])))
                 extra += 1
-        dist = dict(corpus=ncorp, order_ideals=nideals, beyond_ideals=extra, heights=heights, shapes=shapes)
+        dist = dict(corpus=ncorp, order_ideals=nideals, order_ideals_multi_leveldb=nmulti, beyond_ideals=extra, heights=heights, shapes=shapes)
         kinds = {}
         B = 64
         for k in range(0, len(cases), B):
@@ -289,7 +298,7 @@ def run_inner(ctx):
                 u, h = c["units"], c["n"] + 1
                 # non-trivial: something of the commit reached the disk and something did not
                 nontriv = 0 < (u & (0xfd if h < 12 else 0xff)) < (0xfd if h < 12 else 0xff)
-                ctx.count(case_key=(h, u, json.dumps(c["blocks"], sort_keys=True)), nontrivial=nontriv,
+                ctx.count(case_key=(h, u, c.get("ldb"), json.dumps(c["blocks"], sort_keys=True)), nontrivial=nontriv,
                           sample=dict(driver="crash", height=h, units=units_str(u), rec=o["rec"], cont=o["cont"], verdict=v))
                 d = decide(ctx, exe, known, c, o, v)
                 kinds[d] = kinds.get(d, 0) + 1
